@@ -189,9 +189,28 @@ class PathCtx:
                 return False
         self.solver.push()
         self.solver.add(cond)
-        r = self.solver.check()
+        r = self._fair_check()
         self.solver.pop()
         return r != z3.unsat
+
+    def _fair_check(self):
+        """solver.check() whose wall-clock budget is re-issued (scaled by wall/CPU, at most 16x, twice) when the query
+        ran out of it having been starved of CPU -- so that a busy machine does not open infeasible branches or
+        lose entailments that an idle one decides."""
+        import time as _t
+        budget = self.BRANCH_TIMEOUT_MS
+        r = z3.unknown
+        for _ in range(3):
+            w0, c0 = _t.time(), _t.process_time()
+            r = self.solver.check()
+            wall, cpu = _t.time() - w0, _t.process_time() - c0
+            if r != z3.unknown or not (wall >= 0.8 * budget / 1000.0 and cpu < 0.7 * wall):
+                break
+            budget = min(self.BRANCH_TIMEOUT_MS * 16, self.BRANCH_TIMEOUT_MS * 1.3 * wall / max(cpu, 0.02))
+            self.solver.set("timeout", int(budget))
+        if budget != self.BRANCH_TIMEOUT_MS:
+            self.solver.set("timeout", self.BRANCH_TIMEOUT_MS)
+        return r
 
     def branch(self, cond, label=""):
         """Decide a (possibly symbolic) condition on this path; forks are explored later."""
@@ -255,7 +274,7 @@ class PathCtx:
                 return True
         self.solver.push()
         self.solver.add(z3.Not(cond))
-        r = self.solver.check()
+        r = self._fair_check()
         if r == z3.unknown:
             # the in-path budget is wall-clock: on a busy machine a query that takes 0.3 s alone can run out of it, and
             # a lost entailment (e.g. the congruence of two FFT applications) would later look like a refutation.
